@@ -53,7 +53,8 @@ def metric_variants(rng, d):
     """metric matrix objects of every kind usable as a constant metric, incl. low-rank update / downdate and inverse forms"""
     import mici.matrices as mm
     out = {}
-    for kind in ("pscaled", "pdiag", "densepd", "trifacpd", "eigpd", "softabs", "pdblockdiag", "lowrank_pd", "lowrank_pd_down", "pdproduct"):
+    for kind in ("pscaled", "pdiag", "densepd", "trifacpd", "eigpd", "softabs", "pdblockdiag", "lowrank_pd", "lowrank_pd_down", "pdproduct",
+                 "used*densepd", "used*lowrank_pd", "used*lowrank_pd_down", "used*trifacpd"):
         m, dd = matzoo.make_leaf(rng, d, kind)
         out[kind] = (m, dd)
         if kind in ("lowrank_pd", "densepd", "eigpd", "pdiag"):
@@ -105,6 +106,22 @@ def search(ctx):
                 bad += 1
                 ctx.fail(f"refresh:{coeff}", f"{label}: CorrelatedMomentumTransition(coeff={coeff}) gives {new.mom.tolist()} instead of "
                          f"sqrt(1-c^2) p + c L z = {want.tolist()} ({g.calls} draws)", {"label": label, "coeff": coeff})
+        # the coefficient is a public attribute: after re-assigning it (e.g. full refreshment in warm-up, partial afterwards) the update must use the new value
+        tr = CorrelatedMomentumTransition(system, mom_resample_coeff=float(rng.choice([1.0, 0.6, 0.0])))
+        for coeff in (0.5, 0.95, 0.0, 1.0, 0.3):
+            tr.mom_resample_coeff = coeff
+            st = state.copy()
+            p0 = st.mom.copy()
+            z = rng.standard_normal(d)
+            new, _ = tr.sample(st, BasisRng(z))
+            want = p0 if coeff == 0 else ((1 - coeff ** 2) ** 0.5 * p0 + coeff * (L @ z) if coeff != 1 else L @ z)
+            ctx.case(("refresh-reassigned", label, coeff))
+            if not np.allclose(new.mom, want, rtol=1e-10, atol=1e-11):
+                bad += 1
+                ctx.fail("refresh:reassigned_coefficient", f"{label}: after assigning mom_resample_coeff = {coeff} on an existing CorrelatedMomentumTransition the update is "
+                         f"{new.mom.tolist()} instead of sqrt(1-c^2) p + c L z = {want.tolist()} (retained and refreshed weights no longer satisfy a^2 + c^2 = 1)",
+                         {"label": label, "coeff": coeff})
+                break
         st = state.copy()
         z = rng.standard_normal(d)
         new, _ = IndependentMomentumTransition(system).sample(st, BasisRng(z))
